@@ -30,6 +30,8 @@ use std::panic::{AssertUnwindSafe, catch_unwind};
 pub mod glue;
 #[path = "c15_term.rs"]
 pub mod term;
+#[path = "c15_proof.rs"]
+pub mod proof;
 #[path = "c15_view.rs"]
 pub mod view;
 
@@ -1455,6 +1457,9 @@ fn replay(opts: &Opts, out: &mut Out, path: &std::path::Path) {
                 });
             }
             "cbmt" | "vblk" | "vpath" => view::replay_line(out, &ts),
+            "mpg" | "mrg" | "mlg" | "mpb" | "txv" | "ssz" => {
+                proof::replay_line(out, &ts);
+            }
             other => panic!("C15 replay: unknown op {other}"),
         }
     }
@@ -1492,6 +1497,7 @@ pub fn run(opts: &Opts) {
             "json" => run_json(opts, &mut out),
             "hash" => run_hash(opts, &mut out),
             "view" => view::run_view(opts, &mut out),
+            "proof" => proof::run_proof(opts, &mut out),
             // development aid: only the `vpath` ops of the view stream, every path on every block
             "vpath-test" => {
                 let t = Table::new();
@@ -1507,5 +1513,5 @@ pub fn run(opts: &Opts) {
             other => panic!("C15: unknown stream {other}"),
         }
     }
-    out.finish("mol: a case is one generated value of one declared molecule type (all ~190 types, main consensus/protocol types repeatedly), fingerprint type:min(encoded length,64); json: one round over the ten JSON-carried consensus types; hash: one transaction+header+block triple, fingerprint (#txs,#uncles); view: one base block with every view accessor and the commitment sweep over every construction path, fingerprint (min(#txs,6),min(#uncles,3),min(#proposals,3))");
+    out.finish("mol: a case is one generated value of one declared molecule type (all ~190 types, main consensus/protocol types repeatedly), fingerprint type:min(encoded length,64); json: one round over the ten JSON-carried consensus types; hash: one transaction+header+block triple, fingerprint (#txs,#uncles); view: one base block with every view accessor and the commitment sweep over every construction path, fingerprint (min(#txs,6),min(#uncles,3),min(#proposals,3)); proof: one tree with an index list (generic instantiation, fingerprint g:min(n,12):min(#indices,6):min(#lemmas,5)), one ckb-instantiation tree with a tamper (b:min(n,12):min(#indices,6):tamper), or one block for the size functions (s:min(#txs,6):min(#uncles,3):#extra fields)");
 }
